@@ -354,6 +354,13 @@ class Workspace:
         self.via = case.get("via", "api")
         self.args = dict(case.get("args") or {})
         self.d = tempfile.mkdtemp(prefix="c31-")
+        try:
+            self.load(case, generator_for_language_target, metamodel_for_language)
+        except BaseException:      # an input that does not load (shrink candidates): leave nothing behind
+            self.close()
+            raise
+
+    def load(self, case, generator_for_language_target, metamodel_for_language):
         self.out = os.path.join(self.d, "out")
         os.mkdir(self.out)
         self.gen = generator_for_language_target(*GEN_KEY[self.kind])
